@@ -1,8 +1,41 @@
 /-
-  C10 (area wal) — the WAL parsers never fault, for every byte string.
+  C10 (area wal) — the WAL parsers never fault, for every byte string (and every directory content).
 -/
 import PgVerif.Proofs.Wal
 namespace PgVerif.Props.C10.Wal
 open PgVerif PgVerif.Model.Wal PgVerif.Proofs.Wal
+
+/-- The block-reference walk (parseBlockRefs, repaired layout) returns for every byte string and both
+bimg_info conventions: every index and slice in it is guarded. -/
+theorem C10_total_parseBlockRefs (data : Bytes) (magic : Nat) : ∃ r, parseBlockRefsFor data magic = .ok r :=
+  parseBlockRefsFor_total data magic
+
+/-- parseXLogRecord returns for every byte string, LSN and magic. -/
+theorem C10_total_parseXLogRecord (data : Bytes) (lsn magic : Nat) : ∃ r, parseXLogRecord data lsn magic = .ok r :=
+  parseXLogRecord_total data lsn magic
+
+/-- parseWALPage returns (records, or the "skip this page" error) for every byte string of any length. -/
+theorem C10_total_parseWALPage (data : Bytes) : ∃ r, parseWALPage data = .ok r :=
+  parseWALPage_total data
+
+/-- ParseWALFile returns for every byte string: whatever a segment file contains, no page and no record in
+it can make the parser fault. -/
+theorem C10_total_parseWALFile (data : Bytes) : ∃ r, parseWALFile data = .ok r :=
+  parseWALFile_total data
+
+/-- ScanWALDirectory returns a summary for every directory content (any names, any file contents). -/
+theorem C10_total_scanWALDirectory (dir : Dir) : ∃ r, scanWALDirectory dir = .ok r :=
+  scanWALDirectory_total dir
+
+/-- GetRecentWALRecords returns for every directory content and every limit ≥ 0. -/
+theorem C10_total_getRecentWALRecords (dir : Dir) (limit : Int) (h : 0 ≤ limit) :
+    ∃ r, getRecentWALRecords dir limit = .ok r :=
+  getRecent_total dir limit h
+
+/-- The hypothesis `0 ≤ limit` cannot be dropped: with a negative limit `allRecords[len(allRecords)-limit:]`
+is out of range even for an empty directory (replayed on the real code: `impl-wal one waldir -1` panics with
+"slice bounds out of range").  The limit is a caller-supplied parameter, not file content; no caller in
+pgread passes a negative one. -/
+theorem C10_getRecentWALRecords_negative_limit : getRecentWALRecords [] (-1) = .error .slice := by rfl
 
 end PgVerif.Props.C10.Wal
